@@ -969,6 +969,8 @@ class TestResult(unittest.TestResult):
         if not hasattr(self, "_test_state"):
             # ``startTest`` was not called -- set up extected state
             self._test_state = test.__dict__
+            # ``stopTest`` will call ``testTearDown``
+            self.testSetUp()
             count = test.countTestCases()
             self.testsRun += count
             self.options.output.start_test(test, self.testsRun, self.count)
